@@ -600,7 +600,7 @@ func (pe *PolicyEngine) deleteAdminNetworkPolicy(anp *apisv1a.AdminNetworkPolicy
 	delete(pe.adminNetpolsMap, anp.Name)
 	// delete anp from the pe.sortedAdminNetpols list
 	for i, item := range pe.sortedAdminNetpols {
-		if item == (*k8s.AdminNetworkPolicy)(anp) {
+		if item.Name == anp.Name { // admin network policies are identified by their name (see insertAdminNetworkPolicy)
 			// assign to pe.sortedAdminNetpols all ANPs except for current item
 			pe.sortedAdminNetpols = append(pe.sortedAdminNetpols[:i], pe.sortedAdminNetpols[i+1:]...)
 			break
